@@ -265,6 +265,25 @@ pub fn monitor(out: &RunOut) -> MonOut {
                 }
             }
         }
+        // R5 (no starvation): a request made while the machine goes round its waiting loop (asking the
+        // policy for the next time again and again) is read and answered within a few rounds
+        {
+            let nexts: Vec<usize> = (l.start..l.end).filter(|i| matches!(h[*i].kind, Kind::Policy(PolicyRec::ComputeNext { .. }))).collect();
+            for r in &reqs {
+                if r.abandoned {
+                    continue;
+                }
+                let upto = r.reply.as_ref().map(|(ri, _)| *ri).unwrap_or(l.end);
+                let rounds = nexts.iter().filter(|j| **j > r.invoke && **j < upto).count();
+                let in_busy = busy.iter().any(|(a, b)| r.invoke > *a && r.invoke < *b);
+                if rounds > 0 && !in_busy {
+                    m.count("R5.requests_while_the_waiting_loop_turns");
+                }
+                if rounds > 40 && !in_busy {
+                    m.viol(p, "R5", format!("L{}@{}", l.life, r.invoke), format!("the machine went round its waiting loop {rounds} times without reading the request (no reply{})", if r.reply.is_some() { " until much later" } else { "" }));
+                }
+            }
+        }
         // R6: after all handles are dropped scheduled operation continues (no spin, no halt)
         let dropped_all = (l.start..l.end).find(|i| matches!(h[*i].kind, Kind::CtlHandleDrop { client } if client == u32::MAX));
         if let Some(d) = dropped_all {
